@@ -299,36 +299,7 @@ func readErrorLeavesLoopIdiom(rd ssa.CallInstruction) (bool, string) {
 					return Hit
 				}
 				return Cont
-			}, func(b *ssa.BasicBlock, succ int) bool {
-				last, ok := b.Instrs[len(b.Instrs)-1].(*ssa.If)
-				if !ok {
-					return true
-				}
-				c, pol := normCond(last.Cond, true)
-				// latched error test: on this path the latched value is the read's error (non-nil)
-				if x, tmn, ok := NilTest(c); ok && latched(x) {
-					nonNilSucc := 0
-					if tmn == pol {
-						nonNilSucc = 1
-					}
-					return succ == nonNilSucc
-				}
-				// timeout-and-temporary retry idiom: the edge on which both hold may go back
-				if call, ok := stripValue(c).(*ssa.Call); ok && CalleeOf(call).Name == "Temporary" {
-					for _, ft := range Facts(b) {
-						if c2, ok := stripValue(ft.Cond).(*ssa.Call); ok && CalleeOf(c2).Name == "Timeout" && ft.Pol {
-							trueSucc := 0
-							if !pol {
-								trueSucc = 1
-							}
-							if succ == trueSucc {
-								return false // prune the accepted retry edge
-							}
-						}
-					}
-				}
-				return true
-			})
+			}, errEdgeFilter(latched))
 			if len(hits) > 0 {
 				return false, "the error edge can reach the same read again (spin on a dead stream)"
 			}
@@ -349,22 +320,17 @@ func timeoutOnly(h *ssa.Function) bool {
 	if h == nil || len(h.Blocks) == 0 || h.Signature.Results().Len() != 1 {
 		return false
 	}
-	for _, ret := range Returns(h) {
-		v := stripValue(RetVal(ret, 0))
-		if k, ok := v.(*ssa.Const); ok && k.Value != nil && !constant.BoolVal(k.Value) {
-			continue
-		}
-		under := false
-		for _, ft := range Facts(ret.Block()) {
-			if c, ok := stripValue(ft.Cond).(*ssa.Call); ok && CalleeOf(c).Name == "Timeout" && ft.Pol {
-				under = true
-			}
-		}
-		if !under {
-			return false
+	if bt, ok := h.Signature.Results().At(0).Type().Underlying().(*types.Basic); !ok || bt.Kind() != types.Bool {
+		return false
+	}
+	// what holds whenever h answers true (facts common to every possibly-true return, including the
+	// conjuncts of a returned `a && b && c`)
+	for _, ft := range summariseHelper(h).isTrue {
+		if c, ok := stripValue(ft.Cond).(*ssa.Call); ok && CalleeOf(c).Name == "Timeout" && ft.Pol {
+			return true
 		}
 	}
-	return true
+	return false
 }
 
 // errEdgeFilter builds the edge filter used when following the failed edge of a read: it
